@@ -564,6 +564,9 @@ func (t *queryTerm) QueryConditions(pc *parserContext) (ConditionsSet, error) {
 						SubQueries: []string{t.SubQuery, e.Variable.Sub},
 						Mask:       flagsStreamProtocol,
 					}).invert()...)
+				} else {
+					// a stream's protocol always equals itself: this element of the list accepts everything
+					conds = append(conds, Conditions{})
 				}
 				continue
 			}
